@@ -298,18 +298,18 @@ Section IO.
     | _ :: r => lookup k r
     end.
   (* vector keyword whose current value has n entries: absent -> the current value is kept; present ->
-     exactly n numbers are read, fewer is an error *)
+     exactly n numbers must make up the rest of the line: fewer, more, or anything else is an error *)
   Definition get_vec (k : gkey) (conf : list tk) (cur : list T) : option (list T) :=
     match lookup k conf with
     | None => Some cur
     | Some [] => None
-    | Some vals => match take_nums (length cur) vals with Some (xs, _) => Some xs | None => None end
+    | Some vals => match take_nums (length cur) vals with Some (xs, []) => Some xs | _ => None end
     end.
   Definition get_ints (k : gkey) (conf : list tk) (cur : list Z) : option (list Z) :=
     match lookup k conf with
     | None => Some cur
     | Some [] => None
-    | Some vals => match take_ints (length cur) vals with Some (xs, _) => Some xs | None => None end
+    | Some vals => match take_ints (length cur) vals with Some (xs, []) => Some xs | _ => None end
     end.
 
   (* what the grid asks its colvars: period (0 = not periodic) and width of a scalar variable *)
